@@ -93,7 +93,16 @@ def run(prop, tier):
                 records.append(dict(id=rid, kind="syn", **{"class": c["class"]}, outcome=outcome, sidefx=sidefx))
                 index[rid] = dict(string=s, cls=c["class"], outcome=outcome, tree=c["tree"])
                 rid += 1
-        for c in ev:
+        import json as _json
+
+        # every arithmetic tree as it is, and with the variable x renamed to t (the name of the time variable: to the parser a name like any
+        # other - it is a dependency and is looked up in what the caller supplies)
+        ev2 = []
+        for k_, c in enumerate(ev):
+            ev2.append((c, {"x": "x", "y": "y"}))
+            if k_ % 3 == 0 and "x" in c["deps"]:
+                ev2.append((dict(c, tree=_json.loads(_json.dumps(c["tree"]).replace('["name", "x"]', '["name", "t"]')), deps=[("t" if d_ == "x" else d_) for d_ in c["deps"]]), {"x": "t", "y": "y"}))
+        for c, nm in ev2:
             s = render(c["tree"])
             try:
                 fcn, deps = parse_function(s)
@@ -107,7 +116,7 @@ def run(prop, tier):
             need = set(deps)
             try:
                 with np.errstate(all="ignore"):
-                    arr = fcn(**{k: v for k, v in (("x", xs), ("y", ys)) if k in need})
+                    arr = fcn(**{k: v for k, v in ((nm["x"], xs), ("y", ys)) if k in need})
                 arr = np.broadcast_to(np.asarray(arr, dtype=float), xs.shape)
             except Exception:
                 arr = np.full(xs.shape, np.nan)
@@ -116,7 +125,7 @@ def run(prop, tier):
                 ok = True
                 try:
                     with np.errstate(all="ignore"):
-                        o = float(fcn(**{n: val for n, val in (("x", xs[k]), ("y", ys[k])) if n in need}))
+                        o = float(fcn(**{n: val for n, val in ((nm["x"], xs[k]), ("y", ys[k])) if n in need}))
                 except Exception:
                     ok, o = False, 0.0
                 if not np.isfinite(o):
@@ -128,13 +137,13 @@ def run(prop, tier):
             rid += 1
             # DivScaleFree on the real code: quotients of two names, both scaled by 2^-k (an exact operation in binary floating point)
             t = c["tree"]
-            if (t[0] == "bin" and t[1] == "/" or t[0] == "call2" and t[1] == "sdiv") and t[2][0] == "name" and t[3][0] == "name":
+            if (t[0] == "bin" and t[1] == "/" or t[0] == "call2" and t[1] == "sdiv") and t[2][0] == "name" and t[3][0] == "name" and set(deps) == set(c["deps"]):
                 for k_ in (20, 30, 40, 200):
                     sc_ = 2.0 ** -k_
                     with np.errstate(all="ignore"):
-                        a_ = np.asarray(fcn(**{n: val for n, val in (("x", xs), ("y", ys)) if n in need}), dtype=float)
-                        b_ = np.asarray(fcn(**{n: val * sc_ for n, val in (("x", xs), ("y", ys)) if n in need}), dtype=float)
-                        b1 = [float(fcn(**{n: float(val[j]) * sc_ for n, val in (("x", xs), ("y", ys)) if n in need})) for j in range(len(xs))]
+                        a_ = np.asarray(fcn(**{n: val for n, val in ((nm["x"], xs), ("y", ys)) if n in need}), dtype=float)
+                        b_ = np.asarray(fcn(**{n: val * sc_ for n, val in ((nm["x"], xs), ("y", ys)) if n in need}), dtype=float)
+                        b1 = [float(fcn(**{n: float(val[j]) * sc_ for n, val in ((nm["x"], xs), ("y", ys)) if n in need})) for j in range(len(xs))]
                     fin = np.isfinite(a_)
                     for what, bb in (("array", b_), ("scalar", np.array(b1))):
                         records.append(dict(id=rid, kind="scale", a=FX.fixseq(np.broadcast_to(a_, xs.shape)[fin]), b=FX.fixseq(np.where(np.isfinite(np.broadcast_to(bb, xs.shape)), np.broadcast_to(bb, xs.shape), 1e300)[fin])))
